@@ -130,18 +130,16 @@ pub open spec fn eol_rest<'a>(s: Seq<Token<'a>>) -> Seq<Token<'a>> { if skip_sep
 /// where a block may end: end of input, an `else` (left for the enclosing `if`), or a blank line
 pub open spec fn stops_block(t: Option<Token<'_>>) -> bool { match t { None => true, Some(t) => t.id is Else || t.id is Newline } }
 
+pub open spec fn eol_err<'a>(s: Seq<Token<'a>>) -> ParseError<'a> {
+    ParseError { code: ParseErrorCode::ExpectedToken(TokenType::Newline), loc: ParseErrorLocation::Token(skip_sep(s)[0]) }
+}
+/// `<[T]>::to_owned`
+#[verifier::external_body] pub fn slice_to_owned<'a>(s: &[TokenType<'a>]) -> (r: Vec<TokenType<'a>>) ensures r@ == s@ { unimplemented!() }
 pub assume_specification<T, P: FnOnce(&T) -> bool>[Option::<T>::filter](o: Option<T>, p: P) -> (r: Option<T>)
     requires o is Some ==> p.requires((&o->Some_0,)),
     ensures o is None ==> r is None, o is Some ==> exists|b: bool| p.ensures((&o->Some_0,), b) && r == (if b { o } else { None::<T> });
 pub assume_specification<T, const N: usize> [<[T; N] as std::convert::AsRef<[T]>>::as_ref] (a: &[T; N]) -> (r: &[T])
     ensures r@ == a@;
 
-// ---- abstract syntax produced by the sub-parsers that are not under contract here
-#[verifier::external_body] pub struct Statement { _p: u8 }
-#[verifier::external_body] pub struct Expression { _p: u8 }
-//@item src/frontend/ast.rs | enum | Block
-//@end
-//@item src/frontend/ast.rs | struct | Program
-//@end
-pub enum K { Stmt }
-pub enum Out { Stmt(Option<Statement>) }
+pub assume_specification<T, E>[Option::<Result<T, E>>::transpose](o: Option<Result<T, E>>) -> (r: Result<Option<T>, E>)
+    ensures r == (match o { None => Ok::<Option<T>, E>(None), Some(Ok(x)) => Ok::<Option<T>, E>(Some(x)), Some(Err(e)) => Err::<Option<T>, E>(e) });
